@@ -42,6 +42,12 @@ def main(argv):
             cp = subprocess.run([os.path.join(VERIF, "check"), pid], env=env, capture_output=True, text=True, cwd=VERIF)
             rules = sorted({ln.strip().split(" site=")[0].replace("rule=", "") for ln in cp.stdout.splitlines() if ln.startswith("  rule=")})
             ok = cp.returncode == 1 and "VIOLATION property=" + pid in cp.stdout
+            if meta.get("not_detected"):
+                # on record as a gap (meta.json says why): the check is expected to pass; a detection is good news
+                print(f"{name}: {pid} exit={cp.returncode} {'DETECTED (was recorded as not detected)' if ok else 'not detected, as recorded'}", flush=True)
+                results.append({"change": name, "property": pid, "exit": cp.returncode, "detected": ok, "recorded_gap": True, "rules": rules})
+                shutil.rmtree(rdir, ignore_errors=True)
+                continue
             print(f"{name}: {pid} exit={cp.returncode} {'DETECTED' if ok else 'NOT DETECTED'} {' '.join(rules)}", flush=True)
             results.append({"change": name, "property": pid, "exit": cp.returncode, "detected": ok, "rules": rules})
             if not ok:
